@@ -340,7 +340,7 @@ func genC08(rt *rapid.T) c08Case {
 	c.Cuts = genCuts(rt, total)
 	if rapid.IntRange(0, 3).Draw(rt, "withprev") == 0 {
 		for i, n := 0, rapid.IntRange(1, 2).Draw(rt, "nprev"); i < n; i++ {
-			c.Prev = append(c.Prev, world.PrevSession{Hold: pick[uint16](rt, "prevhold", 0, 3, 90), End: pick(rt, "prevend", "fin", "cease", "cease+junk", "cease+junk"), In: rapid.IntRange(0, 2).Draw(rt, "previn") == 0})
+			c.Prev = append(c.Prev, world.PrevSession{Hold: pick[uint16](rt, "prevhold", 0, 3, 90), End: pick(rt, "prevend", "fin", "cease", "cease+junk", "handler-cease", "handler-cease"), In: rapid.IntRange(0, 2).Draw(rt, "previn") == 0})
 		}
 	}
 	return c
